@@ -96,7 +96,7 @@ def obligations(tier, seed):
             viol.append(z3.And(pre, p.cond(), z3.Not(post)))
             reach.append(z3.And(pre, p.cond()))
             for e in p.events:
-                if e.kind == "call" and "reject_too_big_batch_response" in e.callee:
+                if e.kind in ("call", "inline") and "reject_too_big_batch_response" in e.callee:
                     prov.append(z3.And(pre, z3.And(*e.pc), e.args[0] != MX))
     common = dict(bodies=[b.name], extra={"models": _models_used(ctx), "havoced": ctx.havoced})
     if bad:
@@ -163,8 +163,8 @@ def obligations(tier, seed):
 
     b = R.find_body(core, r"^fn method_response::<impl at " + MR + r":[\d: ]+>::finish\(_1: BatchResponseBuilder\)")
     ctx = _ctx(core)
-    ctx.models.append((r"^RawValue::from_string$", M.m_identity))
-    ctx.models.append((r"^Result::<Box<RawValue>, serde_json::Error>::expect$", M.m_identity))
+    from .. import seqmodels as SQ
+    ctx.models.insert(0, (r"^RawValue::from_string$", SQ.m_from_string))
     ex = Executor(ctx)
     ps, bad = _paths(ex, b)
     R0 = z3.BitVec(f"arg1.{fi_result}.len", 64)
@@ -173,7 +173,7 @@ def obligations(tier, seed):
     for p in ps:
         if p.kind != "return":
             continue
-        errs = [e for e in p.events if e.kind == "call" and "batch_response_error" in e.callee]
+        errs = [e for e in p.events if e.kind in ("call", "inline") and "batch_response_error" in e.callee]
         pushes = [e for e in p.events if e.kind == "call" and e.callee == "std::string::String::push"]
         c = z3.And(pre, p.cond())
         if errs:
